@@ -1,6 +1,6 @@
 (* ServeSpec.v — what C10 / C14 / C17 demand of a connection's event trace, written without reference
    to how the serve loop is built.  (The event vocabulary is Model/Serve.v's.) *)
-From FH Require Import Model.Base Model.Serve.
+From FH Require Import Model.Base Gen.GenC10 Model.ConnOpt Model.Serve.
 Open Scope N_scope.
 
 (* ================= C10: Connection options, RFC 9110 section 5.6.1 (lists) and 7.6.1 ================= *)
@@ -74,6 +74,45 @@ Fixpoint conn_ok (evs : list event) : bool :=
 (* HTTP/1.0 keep-alive responses say so *)
 Definition keepalive_marked (http11 : bool) (r : resp) : bool :=
   http11 || has_close (r_conn r) || has_option opt_keep_alive (r_conn r).
+
+(* The listed reasons to close, for request number num with summary q (q_close = the request asked for
+   close or is HTTP/1.0 without keep-alive, as the request parser decided it):
+   DisableKeepalive, the request, MaxRequestsPerConn reached, the handler set it, CloseOnShutdown during
+   shutdown.  (The server may have further reasons of its own — a rejected expectation, a timed-out handler that
+   still owns a streamed body — which conn_ok covers: whatever the reason, header and behaviour agree.)  (A response suppressed by HijackSetNoResponse is not a response.) *)
+Definition handler_state (E : env) (num : N) (q : req_sum) : hstate := req_hstate E num q true StatusOK.
+Definition close_reason (cfg : scfg) (E : env) (num : N) (q : req_sum) : bool :=
+  disable_keepalive cfg || q_close q || max_reached cfg num || rh_close (h_rh (handler_state E num q))
+  || (close_on_shutdown cfg && stop_at_close E num).
+Definition response_suppressed (E : env) (num : N) (q : req_sum) : bool :=
+  h_noresp (handler_state E num q) && h_hijack (handler_state E num q).
+
+(* each dispatched request with a reason to close is answered at once by a response that carries close,
+   after which the server only flushes and closes *)
+Fixpoint reasons_ok (cfg : scfg) (E : env) (evs : list event) : bool :=
+  match evs with
+  | [] => true
+  | Dispatch num q :: rest =>
+      (if close_reason cfg E num q && negb (response_suppressed E num q)
+       then match rest with
+            | Resp r :: Flush :: rest' => has_close (r_conn r) && forallb closing_ev rest'
+            | _ => false
+            end
+       else true) && reasons_ok cfg E rest
+  | _ :: rest => reasons_ok cfg E rest
+  end.
+
+(* the response to a dispatched HTTP/1.0 request says keep-alive unless it says close *)
+Fixpoint http10_ok (evs : list event) : bool :=
+  match evs with
+  | [] => true
+  | Dispatch num q :: rest =>
+      match rest with
+      | Resp r :: _ => keepalive_marked (q_http11 q) r
+      | _ => true
+      end && http10_ok rest
+  | _ :: rest => http10_ok rest
+  end.
 
 (* ================= C14: the ConnState language ================= *)
 Fixpoint sts (evs : list event) : list conn_state :=
